@@ -26,24 +26,36 @@ class Fragments:
         i = bisect_right(self.begin_of_fragments, position) - 1
         L = len(string)
         if self.fragments:
-            b1 = self.begin_of_fragments[i]
-            e1 = b1 + len(self.fragments[b1])
+            # empty fragments occupy no byte: look through them to find the
+            # closest fragments that really hold data
+            j = i
+            while j >= 0 and not self.fragments[self.begin_of_fragments[j]]:
+                j -= 1
 
-            if b1 <= position < e1:
-                raise Exception(
-                    "Collision detected with previous fragment %08x-%08x when inserting new fragment at %08x that span to %08x"
-                    % (b1, e1, position, position + L)
-                )
+            if j >= 0:
+                b1 = self.begin_of_fragments[j]
+                e1 = b1 + len(self.fragments[b1])
 
-            if i + 1 < len(self.begin_of_fragments):
-                b2 = self.begin_of_fragments[i + 1]
+                if b1 <= position < e1:
+                    raise Exception(
+                        "Collision detected with previous fragment %08x-%08x when inserting new fragment at %08x that span to %08x"
+                        % (b1, e1, position, position + L)
+                    )
 
-                if b2 < position + L:
+            j = i + 1
+            while j < len(self.begin_of_fragments):
+                b2 = self.begin_of_fragments[j]
+                if not (b2 < position + L):
+                    break
+
+                if self.fragments[b2]:
                     e2 = b2 + len(self.fragments[b2])
                     raise Exception(
                         "Collision detected with previous fragment %08x-%08x when inserting new fragment at %08x that span to %08x"
                         % (b2, e2, position, position + L)
                     )
+
+                j += 1
 
         self.begin_of_fragments.insert(i + 1, position)
 
@@ -56,7 +68,7 @@ class Fragments:
         for offset, s in sorted(self.fragments.items()):
             result.append(self.fill * (offset - begin))
             result.append(s)
-            begin = offset + len(s)
+            begin = max(begin, offset + len(s))
 
         return b''.join(result)
 
